@@ -63,7 +63,11 @@ class Prop:
     rule = ''
     assumptions = ()
     parts = ()
-    level = 'exploration'
+    level = "exploration"
+    registered = False
+    technique = ""
+    level_text = ""
+    level_note = ""
 
     def hashseed(self, w):
         return '0'
